@@ -168,7 +168,7 @@ func c02NewGatedLease(t *testing.T, longLease0 bool) *c02Gated {
 		}
 		if ok {
 			if ld := g.c.leader(10 * time.Second); ld != nil {
-				if vcExec(ld.s, "CREATE TABLE big (x INTEGER)", "INSERT INTO big(x) VALUES(0)", "CREATE TABLE seq (tag INTEGER)") == nil {
+				if vcExec(ld.s, "CREATE TABLE big (x INTEGER)", "INSERT INTO big(x) VALUES(0)", "CREATE TABLE seq (tag INTEGER)", "CREATE TABLE reg (k INTEGER PRIMARY KEY, v INTEGER)") == nil {
 					return g
 				}
 			}
